@@ -287,7 +287,9 @@ def run_unit(udesc, tier="quick", timeout_ms=None, known=None):
             rec["seconds"] = res["seconds"]
             if res["verdict"] == "unsat":
                 rec["verdict"] = "discharged"
-                if rec["cover"] == "unsat":
+                if rec["cover"] == "unsat" and not z3.is_false(z3.simplify(ob.goal)):
+                    # (an obligation `False` is the claim that its program point is unreachable: an
+                    # unsatisfiable path condition is exactly its proof, not a vacuity)
                     rec["verdict"] = "vacuous"
             elif res["verdict"] == "sat":
                 rec["verdict"] = "refuted"
